@@ -229,6 +229,11 @@ func genMixedLists(t *rapid.T, fileChance int) (lists []ListSpec, models []NetMo
 			lines = append(lines, fmt.Sprintf("/Uniq%dp[0-9]/$image", k), fmt.Sprintf("/Uniq%dp[0-9]/$script,match-case", k))
 		}
 	}
+	if chance(t, "match-case-regex-block", 2) {
+		// case-sensitive expressions whose literal beginning (with capitals and escaped characters) is longer than
+		// any literal the rule text offers as a shortcut; asked several times in a row by the block queries
+		lines = append(lines, "/Ad\\.Banner\\/Promo[0-9]/$match-case", "/^https?:\\/\\/X\\.Com\\/Track[0-9]+/$match-case", "/AdBanner[0-9]?\\.gif/$match-case")
+	}
 	if chance(t, "domain-bucket-block", 2) {
 		// several short-pattern rules in the $domain buckets of a domain and of its sub-domain
 		// together with /a9 the domain's bucket gets 3, 5, 6 or 7 entries: never a full backing array.
@@ -303,7 +308,11 @@ func genFieldToggleQueries(t *rapid.T) []Q {
 // genBlockQueries returns questions aimed at the rule blocks of genMixedLists
 // (asked in the returned order).
 func genBlockQueries(t *rapid.T) []Q {
-	switch rapid.IntRange(0, 4).Draw(t, "block") {
+	switch rapid.IntRange(0, 5).Draw(t, "block") {
+	case 5:
+		// the same address several times in a row, for the case-sensitive expressions
+		u := pick(t, "mcu", []string{"http://x.com/Ad.Banner/Promo7", "http://X.Com/Track123", "http://x.com/AdBanner7.gif", "http://x.com/ad.banner/promo7"})
+		return []Q{{URL: u, Typ: "script"}, {URL: u, Typ: "script"}, {URL: u, Typ: "image"}}
 	case 4:
 		// address literals and domain names in turn (a $denyallow rule treats the two kinds differently)
 		var out []Q
